@@ -1184,6 +1184,9 @@ func (c *Ctx) convert(st *State, in ssa.Instruction, v Value, from, to types.Typ
 			return StrV{Spec: "runestr", SArgs: []Value{t}}
 		}
 		if sl, ok := v.(SliceV); ok {
+			if fs, isSl := under(from).(*types.Slice); isSl && intBits(fs.Elem()) == 32 {
+				return c.runesToString(st, sl, fs.Elem())
+			}
 			return c.bytesToString(st, sl)
 		}
 	case isString(from):
@@ -1199,6 +1202,38 @@ func (c *Ctx) convert(st *State, in ssa.Instruction, v Value, from, to types.Typ
 	}
 	unsupported("conversion %s -> %s", from, to)
 	return nil
+}
+
+// runesToString: string([]rune).  Concrete runes give a concrete string; otherwise the piece "runesstr"
+// carries a snapshot of the rune array (arr, off, len): the UTF-8 rendering of that sequence.
+func (c *Ctx) runesToString(st *State, sl SliceV, elem types.Type) Value {
+	if !sl.Heap {
+		if sl.Obj == nil {
+			return conc("")
+		}
+		av := c.mem(st, sl.Obj).(*ArrayV)
+		var rs []rune
+		all := true
+		for i := 0; i < sl.CLen; i++ {
+			t := av.Elems[sl.COff+i].(*Term)
+			if !isNum(t) {
+				all = false
+				break
+			}
+			if t.Sort.Kind == SBV {
+				rs = append(rs, rune(bvSigned(t.Val, t.Sort.Bits).Int64()))
+			} else {
+				rs = append(rs, rune(t.Val.Int64()))
+			}
+		}
+		if all {
+			return conc(string(rs))
+		}
+		sl = c.toHeapSlice(st, sl, elem)
+	}
+	lvs := c.leavesOf(elem)
+	arr := Select(c.heapArr(st, lvs[0]), sl.Ref)
+	return StrV{Spec: "runesstr", SArgs: []Value{arr, sl.Off, sl.Len}}
 }
 
 func (c *Ctx) bytesToString(st *State, sl SliceV) Value {
